@@ -68,6 +68,12 @@ def _unique_observable_times(
     return observable_times
 
 
+# Grid points closer than this (in relative time) to a pinned time are merged
+# into it. Larger than the 1e-10 tolerance the backends use to match evaluation
+# times, far smaller than any physical time step.
+_GRID_MERGE_TOL = 1e-9
+
+
 def _get_target_times(
     sequence: pulser.Sequence,
     config: EmulationConfig,
@@ -80,11 +86,18 @@ def _get_target_times(
     """
     duration = float(sequence.get_duration(include_fall_time=config.with_modulation))
     n_steps = math.floor(duration / dt)
+    # Times that must be hit exactly: both ends and every observable time.
+    pinned_times_rel: set[float] = {0.0, 1.0} | _unique_observable_times(config)
+    # Rounding can put a multiple of dt next to (or, at the end, beyond) a pinned
+    # time, e.g. 170 * 1.1 / 187 * 187 = 187.00000000000003. Such a grid point
+    # would be matched to the same evaluation time as the pinned one, so it is
+    # dropped in favour of the pinned time.
     evolution_times_rel: set[float] = {
-        i * float(dt) / duration for i in range(n_steps + 1)
+        t
+        for t in (i * float(dt) / duration for i in range(n_steps + 1))
+        if all(abs(t - p) > _GRID_MERGE_TOL for p in pinned_times_rel)
     }
-    evolution_times_rel.add(1.0)
-    target_times_rel = evolution_times_rel | _unique_observable_times(config)
+    target_times_rel = evolution_times_rel | pinned_times_rel
     target_times: list[float] = sorted({t * duration for t in target_times_rel})
     return target_times
 
